@@ -34,7 +34,7 @@ func (c *Ctx) arbItems(mode arbMode) []Item {
 		}
 		seen[id] = true
 		mod, typ, key := mc.Mod, mc.Typ, mc.Key
-		if mode.reencode && !c.thorough() && key >= 0 && c.frameInfo(mod, typ) != nil {
+		if !c.thorough() && key >= 0 && c.frameInfo(mod, typ) != nil {
 			continue // quick tier: the frames' bodies have their own items; frames per key are in the thorough tier
 		}
 		items = append(items, Item{ID: "arbmsg:" + id, Run: func(c *Ctx) { decArb(c, mod, typ, key, mode) }})
